@@ -21,7 +21,7 @@ PosLists(n) == UNION {[1..k -> 0..(n - 1)] : k \in 1..2} \cup {<<0, n - 1, n \di
 
 \* remainder degree bounds: FriOptions accepts every value 0..255 (ProofOptions only one less than a power of two)
 Rems == {2 ^ r - 1 : r \in 0..8} \cup {2, 4, 5, 6, 12, 100, 200, 254}
-SchedCases == {[ln |-> ln, lb |-> lb, f |-> f, rem |-> rem] : ln \in 3..MaxLn, lb \in 1..7, f \in Folds, rem \in Rems}
+SchedCases == {[ln |-> ln, lb |-> lb, f |-> f, rem |-> rem] : ln \in 0..MaxLn, lb \in 1..7, f \in Folds, rem \in Rems}
 StratCases == {[s |-> s] : s \in Strategies}
 
 Init == \/ /\ kind = "layout" /\ \E ln \in 3..5, f \in Folds : 2 ^ ln \div f >= 2 /\ \E ps \in PosLists(2 ^ ln) : c = [n |-> 2 ^ ln, f |-> f, ps |-> ps]
@@ -38,6 +38,9 @@ LayoutInv == kind = "layout" =>
         /\ \A i \in DOMAIN c.ps : QueryValue(Rows(c.n, c.f, folded), folded, c.ps[i], c.n, c.f) = c.ps[i]
 SchedInv == kind = "sched" =>
     LET d == 2 ^ (c.ln + c.lb) IN WellFormed(d, c.f, 2 ^ c.lb, c.rem) => GuardsOK(d, c.f, 2 ^ c.lb, c.rem)
+\* refuted (non-vacuity): the domain inferred from the degree instead of the number of coefficients (degree bound 1)
+SchedInvOldDomain == kind = "sched" =>
+    LET d == 2 ^ (c.ln + c.lb) IN WellFormed(d, c.f, 2 ^ c.lb, c.rem) => GuardsOKWith(d, c.f, 2 ^ c.lb, c.rem, FALSE)
 SoundInv == kind = "strategy" => Sound(c.s, Chk)
 
 Emit == CASE kind = "sched" ->
